@@ -86,7 +86,7 @@ impl vstd::std_specs::core::IndexSpecImpl<PageTableIndex> for PageTable {
 //@ fn src/structures/paging/mapper/recursive_page_table.rs | impl<'a> RecursivePageTable<'a> | new
 //@ obligation C20 C20.RecursivePageTable_new.ok_iff_recursive_and_active
 //@ sub /table as \*const _ as u64/ => addr_of_table(table)
-//@ sub /if Ok\(Cr3::read\(\)\.0\) != table\[recursive_index\]\.frame\(\)/ => if result_frame_ne(Ok(Cr3::read().0), table[recursive_index].frame())
+//@ sub? /if Ok\(Cr3::read\(\)\.0\) != table\[recursive_index\]\.frame\(\)/ => if result_frame_ne(Ok(Cr3::read().0), table[recursive_index].frame())
 //@ A
     requires canonical(table_addr(old(table))),
     ensures
